@@ -13,6 +13,14 @@ OVERLAY = {
 
 NOT_APPLICABLE = {}
 
+# files under harness/inplace mapped (as _test.go files) into package-main directories of /repo
+INPLACE = {
+    "vfhx_test.go": ["cmd/terway-cli/zz_verif_hx_test.go"],
+    "terwaycli_c20_test.go": ["cmd/terway-cli/zz_verif_c20_test.go"],
+}
+
+UNSHARE_ENI = ["unshare", "-m", "sh", "-c", "mkdir -p /var/run/eni && mount -t tmpfs tmpfs /var/run/eni && exec \"$@\"", "sh"]
+
 PROPS = {
     "C14": {
         "pkg": "./c14/", "test": "TestVerif_C14", "n_quick": 6, "n_thorough": 200,
@@ -94,6 +102,27 @@ PROPS = {
                       "exercised under recover() with structured and malformed streams (a test supporting the claim, not a theorem).",
         "level_note": "Trusted: Coq kernel, extraction, driver, harness. float64 rounding modelled by exact rationals inside the exact-safe region only. "
                       "Proof covers parseBandwidth; the remaining entry points are decided by recover()-guarded execution only (partial).",
+    },
+    "C20": {
+        "pkg": "./c20/", "test": "TestVerif_C20", "n_quick": 1500, "n_thorough": 100000,
+        "runs": [
+            {"pkg": "./c20/", "test": "TestVerif_C20", "n_quick": 1500, "n_thorough": 100000},
+            {"pkg": "./cmd/terway-cli/", "test": "TestVerif_C20_Chain", "inplace": True, "wrap": UNSHARE_ENI, "n_quick": 1500, "n_thorough": 100000},
+        ],
+        "rule": "base/overlay documents over the configuration's keys (type-correct values, nulls, wrong types, nested objects, arrays of objects) through the library's MergePatch "
+                "(merged tree compared with the model) and through MergeConfigAndUnmarshal (must equal decode-of-merge; twice = once on the decoded Config); "
+                "plugin lists (terway / cilium-cni / other / untyped, 6 virtual-type classes with case variants, 5 policy-provider classes) x kernel features x recorded capabilities "
+                "through the real mergeConfigList (package main, in place, tmpfs on /var/run/eni). non-trivial = overlay with at least one null or nested member, or a plugin list "
+                "with a terway entry on an eBPF kernel; distinct = distinct input vectors",
+        "trusted": ["harness-side comparison MergeConfigAndUnmarshal(top, base) == Unmarshal(MergePatch(base, top)) (reflect.DeepEqual)"],
+        "modelled": ["encoding/json decoding into daemon.Config (field-wise, E8); gabs JSON container; bpftool / uname probes (feature flags are inputs)",
+                     "storeRuntimeConfig -> policy.go agent selection (c20_agent_coherent of the design) is not modelled yet"],
+        "assumptions": ["E8: encoding/json decodes Config field-wise"],
+        "level_text": "Theorems for all JSON documents with unique member names: empty overlay is the identity, absent members keep the base value, each overlay member acts per RFC 7396, "
+                      "twice = once for overlays whose arrays hold scalars (the full statement is refuted for the library's null pruning inside arrays of objects, with witness); "
+                      "for all plugin lists and feature vectors: order kept, virtual type / bandwidth mode in the supported sets, chainer present when ipvlan/datapathv2 is selected, "
+                      "never a chainer without eBPF. Tied by running the real merge and the real generator.",
+        "level_note": "Trusted: Coq kernel, extraction, driver, harness. The idempotence theorem carries the schema hypothesis flat_arrays (partial); Config decoding is modelled, not verified.",
     },
 }
 
@@ -337,4 +366,37 @@ def dist_C15(cases):
             d[names[ins[0]]] += 1
         if outs == ["-998"]:
             d["panics"] += 1
+    return d
+
+
+# ---- C20 ---------------------------------------------------------------------
+def sig_C20(ins, outs):
+    if ins[0] == "1":
+        if outs[-2:-1] == ["0"]:
+            return "C20:merge:MergeConfigAndUnmarshal-differs-from-merge-patch"
+        return "C20:merge"
+    return "C20:chain"
+
+
+def nt_C20(ins, outs):
+    if ins[0] == "1":
+        return "0" in ins[1:] or ins.count("5") > 2
+    return ins[1] == "1" and int(ins[6]) > 0
+
+
+def dist_C20(cases):
+    d = {"merge": 0, "merge_not_objects_or_error": 0, "chain": 0, "chain_error": 0, "chain_ebpf": 0, "chain_appended_chainer": 0}
+    for _, ins, outs in cases:
+        if ins[0] == "1":
+            d["merge"] += 1
+            if outs == ["0"]:
+                d["merge_not_objects_or_error"] += 1
+        else:
+            d["chain"] += 1
+            if outs == ["0"]:
+                d["chain_error"] += 1
+            if ins[1] == "1":
+                d["chain_ebpf"] += 1
+            if "-1" in outs[2::5]:
+                d["chain_appended_chainer"] += 1
     return d
